@@ -91,6 +91,11 @@ pub struct RefStore {
     pub corrupted: Vec<usize>,
     pub allow_duplicates: bool,
     pub blob_header_len: u64,
+    /// record-count limit of a blob (rotation is requested by the write that reaches it)
+    pub max_data: u64,
+    /// a deferred index dump is registered with the worker (dumps of blobs closed by an
+    /// overflow switch wait for it)
+    pub deferred_pending: bool,
 }
 
 impl RefStore {
@@ -103,6 +108,8 @@ impl RefStore {
             corrupted: Vec::new(),
             allow_duplicates,
             blob_header_len: 20,
+            max_data: u64::MAX,
+            deferred_pending: false,
         };
         s.create_active();
         s
@@ -210,7 +217,39 @@ impl RefStore {
             val,
             disk_len,
         });
+        // overflow: the worker switches to a new blob
+        if self.active.as_ref().unwrap().records.len() as u64 >= self.max_data {
+            let a = self.active.take().unwrap();
+            self.closed.push(Some(a));
+            self.create_active();
+            if !self.deferred_pending {
+                self.dump_closed();
+            }
+        }
         true
+    }
+
+    /// the paused clock passes the deferred-dump deadline
+    pub fn tick(&mut self) {
+        self.deferred_pending = false;
+        self.dump_closed();
+    }
+
+    /// the highest-id blob is damaged on disk so that the next start quarantines it
+    pub fn quarantine_highest(&mut self) {
+        let max = self.blobs().map(|b| b.id).max();
+        if let Some(id) = max {
+            if self.active.as_ref().map_or(false, |a| a.id == id) {
+                self.active = None;
+            } else {
+                for s in self.closed.iter_mut() {
+                    if s.as_ref().map_or(false, |b| b.id == id) {
+                        *s = None;
+                    }
+                }
+            }
+            self.corrupted.push(id);
+        }
     }
 
     /// Returns the number of blobs that received a marker.
@@ -234,6 +273,7 @@ impl RefStore {
                 n += 1;
             }
         }
+        let mut in_closed = false;
         for b in self.closed.iter_mut().flatten() {
             let live = b.local_head(k).map_or(false, |r| !r.del);
             if live {
@@ -242,7 +282,11 @@ impl RefStore {
                 b.bloom_offloaded = false;
                 b.records.push(marker.clone());
                 n += 1;
+                in_closed = true;
             }
+        }
+        if in_closed {
+            self.deferred_pending = true;
         }
         n
     }
@@ -317,6 +361,7 @@ impl RefStore {
         }
         self.next_id = self.ever_ids.iter().next_back().map_or(0, |m| m + 1);
         self.active = None;
+        self.deferred_pending = false;
         if !lazy {
             if let Some(mut a) = all.pop() {
                 a.index_on_disk = false;
